@@ -256,6 +256,40 @@ func runOps(x *hx.Ctx, t, n int) {
 		_, err := p.Add(r)
 		x.Err("Add(different thresholds)", err)
 	}
+	// a polynomial that was already used (evaluated, checked against, shared out) is combined afterwards: the sum is a
+	// new value that owes nothing to what was computed from its operands before
+	P2, Q2 := p.Commit(H), q.Commit(H)
+	for i := 0; i < n; i++ {
+		_ = P2.Eval(uint32(i))
+		_ = P2.Check(p.Eval(uint32(i)))
+	}
+	_ = P2.Shares(uint32(n))
+	S2, err := P2.Add(Q2)
+	if x.NoErr("PubPoly.Add after the receiver was evaluated", err) {
+		for i := 0; i < n; i++ {
+			u := uint32(i)
+			x.ValidP(fmt.Sprintf("(P+Q)(%d) after P was evaluated", i), S2.Eval(u).V, s.Point().Add(P.Eval(u).V, Q.Eval(u).V))
+			x.Require(fmt.Sprintf("(P+Q).Check(sum share %d) after P was evaluated", i), S2.Check(sum.Eval(u)))
+			x.ValidP(fmt.Sprintf("P(%d) unchanged by the addition", i), P2.Eval(u).V, P.Eval(u).V)
+		}
+		x.Require("P+Q built after evaluating P equals P+Q built before", S2.Equal(S))
+	}
+	p2 := share.NewPriPoly(s, uint32(t), nil, s.RandomStream())
+	before := make([]kyber.Scalar, n)
+	for i := 0; i < n; i++ {
+		before[i] = p2.Eval(uint32(i)).V.Clone()
+	}
+	_ = p2.Shares(uint32(n))
+	sum2, err := p2.Add(q)
+	prod2 := p2.Mul(q)
+	if x.NoErr("PriPoly.Add after the receiver was evaluated", err) {
+		for i := 0; i < n; i++ {
+			u := uint32(i)
+			x.ValidS(fmt.Sprintf("(p+q)(%d) after p was evaluated", i), sum2.Eval(u).V, s.Scalar().Add(before[i], q.Eval(u).V))
+			x.ValidS(fmt.Sprintf("(p*q)(%d) after p was evaluated", i), prod2.Eval(u).V, s.Scalar().Mul(before[i], q.Eval(u).V))
+			x.ValidS(fmt.Sprintf("p(%d) unchanged by Add and Mul", i), p2.Eval(u).V, before[i])
+		}
+	}
 	// shares of index i are evaluated at x = i+1
 	x.ValidS("Eval(0) is p(1)", p.Eval(0).V, sumCoeffs(s, p))
 }
